@@ -4,12 +4,14 @@ SUITES = {
     "unary":  dict(mc="MC_Seq"),
     "chain2": dict(mc="MC_Seq"),
     "two":    dict(mc="MC_Seq"),
+    "flat":   dict(mc="MC_Seq"),
 }
 
 PLAN = {
     "C03": dict(quick=["unary", "chain2"], thorough=["unary", "chain2"]),
     "C01": dict(quick=["unary", "chain2", "two"], thorough=["unary", "chain2", "two"]),
     "C04": dict(quick=["two"], thorough=["two"]),
+    "C05": dict(quick=["flat"], thorough=["flat"]),
 }
 
 ASSUMPTIONS = {
